@@ -25,12 +25,18 @@ def C(kind, id, args, extra=None):
     return ('C', kind, id, tuple(args), extra)
 
 
+class Item(puan.variable):
+    """What a user's domain class looks like (the pinned suite builds models over such subclasses)."""
+    pass
+
+
 class Binder:
     """Builds fresh puan objects for an AST through the public constructors."""
 
-    def __init__(self, share=True, leaf_as_str=False, as_iter=False):
+    def __init__(self, share=True, leaf_as_str=False, as_iter=False, leaf_subclass=False):
         self.share = share
         self.leaf_as_str = leaf_as_str
+        self.leaf_subclass = leaf_subclass      # leaves as instances of a user-defined subclass of puan.variable
         self.as_iter = as_iter      # hand list-typed `propositions` arguments over as one-shot iterators
         self.memo = {}     # ast -> object (last built)
         self.calls = 0     # constructor calls (transitions)
@@ -48,6 +54,8 @@ class Binder:
             _, i, lo, hi = ast
             if self.leaf_as_str and (lo, hi) == (0, 1) and isinstance(i, str):
                 return i
+            if self.leaf_subclass:
+                return Item(i, (lo, hi))
             return puan.variable(i, (lo, hi))
         if k == 'N':
             _, i, sign, value, children, fixed = ast
@@ -94,8 +102,8 @@ class Binder:
         raise ValueError(ast)
 
 
-def bind(ast, share=True, leaf_as_str=False, as_iter=False):
-    b = Binder(share, leaf_as_str, as_iter)
+def bind(ast, share=True, leaf_as_str=False, as_iter=False, leaf_subclass=False):
+    b = Binder(share, leaf_as_str, as_iter, leaf_subclass)
     return b.bind(ast), b
 
 
